@@ -124,7 +124,8 @@ func cmdLoadHist(args []string) {
 					rep.Mismatch(vh.Mismatch{Case: cs, Step: si + 1, What: fmt.Sprintf("offender: the error names none of %q: %v", st.Offs, err), Known: known})
 				}
 			}
-			if *intro && st.Intro != nil && err == nil && len(diffs) == 0 {
+			// after an accepted load the view of the new schema, after a refused load the view of the schema as it was
+			if *intro && st.Intro != nil && len(diffs) == 0 {
 				for _, inc := range []bool{true, false} {
 					view, ierrs := sch.IntroView(root, inc)
 					exp := st.Intro.Current
